@@ -59,6 +59,47 @@ def corridor():
                 absorbing=[2], init=[0, 1])
 
 
+def h_augment_arrays(sk, base_kind, mask):
+    """the ARRAY views of a derived MDP follow ITS OWN components -- also when the base's arrays were built (and cached on the base object) before the
+    derivation: a planner run on the base first must not change what a planner sees on the derived MDP.  Compared with the arrays of the same derivation of a
+    fresh, never-queried twin of the base (same symbolic leaves).  Masks without action / transition overrides only (the others change the array shapes)."""
+    assert not mask & (2 | 4)
+    def build():
+        mdp, v = M.make_mdp(sk, gamma='sym', numeric='generic', nseed=4)
+        if base_kind == 'instance-discount':
+            mdp.discount_rate = v.gamma
+        return mdp, v
+    states = list(sk.states)
+    rO = S.real('override_reward')
+    over = {}
+    if mask & 1:
+        d0 = DictDistribution({states[-1]: 1.0})
+        over['initial_state_dist'] = lambda: d0
+    if mask & 8:
+        over['reward'] = lambda s, a, ns: rO
+    if mask & 16:
+        over['is_absorbing'] = lambda s: s == states[0]
+    names = ('transition_matrix', 'reward_matrix', 'state_action_reward_matrix', 'absorbing_state_vec', 'initial_state_vec', 'action_matrix')
+    with M.facades():
+        warm, v = build()
+        for nm in names:                    # e.g. left behind by ValueIteration().plan_on(base)
+            getattr(warm, nm)
+        warm.reachable_states()
+        cold, _ = build()
+        a_warm, a_cold = opt.augment(warm, **over), opt.augment(cold, **over)
+        for nm in names:
+            x, y = np.asarray(getattr(a_warm, nm)), np.asarray(getattr(a_cold, nm))
+            S.check('augment:arrays-of-the-derived-MDP-do-not-depend-on-arrays-cached-on-the-base:%s' % nm,
+                    S.And([S.truth(x.shape == y.shape)] + [S.eq(p, q) for p, q in zip(x.ravel().tolist(), y.ravel().tolist())] if x.shape == y.shape else [S.false()]))
+        # and they are the derived MDP's own: spot clauses against the overrides
+        sl, al = list(a_warm.state_list), list(a_warm.action_list)
+        if mask & 16:
+            S.check('augment:absorbing-vector-follows-the-overriding-predicate', S.And([S.truth(bool(a_warm.absorbing_state_vec[i]) or s != states[0]) for i, s in enumerate(sl)]))
+        if mask & 8:
+            S.check('augment:reward-matrix-follows-the-overriding-reward', S.And([
+                S.eq(a_warm.reward_matrix[sl.index(s), al.index(a), sl.index(n)], rO) for s in states for a in sk.actions.get(s, ()) for n in sk.supp[(s, a)] if n in sl and s in sl]))
+
+
 def h_augment(sk, base_kind, mask, list_override):
     """every non-overridden component of augment(mdp, ...) equals the base's; overridden ones equal the override"""
     mdp, v = M.make_mdp(sk, gamma='sym', numeric='sym')
@@ -574,6 +615,9 @@ def tasks(tier, seed):
                 if tier == 'quick' and sk is sk3 and bk in ('quick', 'augmented') and mask not in (0, 31, 8, 16):
                     continue
                 T.append(Task('augment/%s/%s/mask%02d' % (sk.name, bk, mask), h_augment, (sk, bk, mask, False), tier='B'))
+            if bk in ('class-discount', 'instance-discount'):
+                for mask in (0, 1, 8, 16, 25):
+                    T.append(Task('augment-arrays/%s/%s/mask%02d' % (sk.name, bk, mask), h_augment_arrays, (sk, bk, mask), tier='B', note='base arrays cached before the derivation'))
             if bk not in ('quick', 'augmented'):
                 T.append(Task('augment/%s/%s/list-overrides' % (sk.name, bk), h_augment, (sk, bk, 0, True), tier='B'))
     cor = corridor()
